@@ -98,17 +98,20 @@ type oracleModel struct {
 }
 
 type votesRun struct {
-	spec  votesSpec
-	rng   *rand.Rand
-	c     *chain.Chain
-	b     *fix.Bridge
-	res   *core.CaseResult
-	verb  bool
-	ev    []*event
-	om    []*oracleModel
-	extra []*fix.Oracle // late joiners
-	user  chain.Key
-	token fix.Token
+	variantVoted map[string]map[uint64]int // oracle address -> nonce -> claim variant of its latest accepted vote
+	curNonce     uint64
+	curVariant   int
+	spec         votesSpec
+	rng          *rand.Rand
+	c            *chain.Chain
+	b            *fix.Bridge
+	res          *core.CaseResult
+	verb         bool
+	ev           []*event
+	om           []*oracleModel
+	extra        []*fix.Oracle // late joiners
+	user         chain.Key
+	token        fix.Token
 
 	// C01 state
 	lastObserved   uint64
@@ -323,7 +326,9 @@ func (r *votesRun) buildEvents() {
 			in2.Amounts = []sdkmath.Int{amt.AddRaw(1)}
 			in3 := in
 			in3.To = r.user.Hex()
-			e.Variants = []fix.ClaimFn{b.BridgeCallClaim(n, h, in), b.BridgeCallClaim(n, h, in2), b.BridgeCallClaim(n, h, in3)}
+			in4 := in
+			in4.Refund = r.user.Hex() // the same call, only the refund goes elsewhere
+			e.Variants = []fix.ClaimFn{b.BridgeCallClaim(n, h, in), b.BridgeCallClaim(n, h, in2), b.BridgeCallClaim(n, h, in3), b.BridgeCallClaim(n, h, in4)}
 			e.Receiver, e.Amount, e.ToERC20 = toAcc, amt, true
 		default:
 			e.Kind = "send_to_fx"
@@ -571,6 +576,14 @@ func (r *votesRun) vote(i int, e *event, v int, why string) {
 		}
 		m.voted[lt] = append(m.voted[lt], e.Nonce)
 		m.votedAt[e.Nonce] = lt
+		if r.variantVoted == nil {
+			r.variantVoted = map[string]map[uint64]int{}
+		}
+		if r.variantVoted[o.Oracle.Bech32()] == nil {
+			r.variantVoted[o.Oracle.Bech32()] = map[uint64]int{}
+		}
+		r.variantVoted[o.Oracle.Bech32()][e.Nonce] = v
+		r.curNonce, r.curVariant = e.Nonce, v
 		if v != 0 {
 			r.competing = true
 		}
@@ -709,6 +722,26 @@ func (r *votesRun) checkQuorum(what string, nonce uint64, atts map[string]*cross
 		}
 		r.res.Violate(key, "%s: nonce %d observed with distinct registered voting power %s of recorded total %s (%s%% < 66%%); voters=%d",
 			what, nonce, power, pw.total, pct(power, pw.total), len(distinct))
+	}
+	// "each of whom voted for that very event": the voters counted must have sent the claim that takes effect
+	// (the one of the voter who crossed the bar); voters this monitor has no record of are given the benefit
+	if r.curNonce == nonce && !lhs.LT(rhs) {
+		same := sdkmath.ZeroInt()
+		others := 0
+		for v := range distinct {
+			vv, known := r.variantVoted[v][nonce]
+			if known && vv != r.curVariant {
+				others++
+				continue
+			}
+			if p, ok := pw.power[v]; ok {
+				same = same.Add(p)
+			}
+		}
+		if same.MulRaw(100).LT(rhs) {
+			r.res.Violate("C02/observed-on-votes-for-different-events", "%s: nonce %d took effect in the form its last voter sent (variant %d), but only %s of the recorded total %s voted for that form; %d counted voters had sent a different claim",
+				what, nonce, r.curVariant, same, pw.total, others)
+		}
 	}
 	// live-power clause: the bar must not be weaker than 66% of the online oracles' power
 	online := sdkmath.ZeroInt()
